@@ -7,13 +7,53 @@ use smartcore::linalg::naive::dense_matrix::DenseMatrix;
 use smartcore::linalg::{BaseMatrix, BaseVector, Matrix};
 
 /// The three instantiations (in the order of `NAMES`).
-pub trait Bk: Matrix<f64> + 'static {}
+pub trait Bk: Matrix<f64> + 'static {
+    /// A matrix with logical content `m` whose MEMORY is unusual in a way only this backend's native
+    /// API can produce (None: the backend has no such representation).
+    fn exotic(_m: &M, _kind: usize) -> Option<Self> {
+        None
+    }
+    /// The same for the row-vector type.
+    fn vexotic(_v: &[f64]) -> Option<Self::RowVector> {
+        None
+    }
+}
 impl Bk for DenseMatrix<f64> {}
-impl Bk for ndarray::Array2<f64> {}
+impl Bk for ndarray::Array2<f64> {
+    /// kind 0: an owned array cut out of a larger table with `slice_move` (non-zero offset, row stride
+    /// larger than the row length, buffer longer than the content); kind 1: rows stored in reverse and
+    /// the axis inverted (negative stride)
+    fn exotic(m: &M, kind: usize) -> Option<Self> {
+        use ndarray::{s, Array2, Axis};
+        if kind == 0 {
+            let mut big = Array2::<f64>::from_elem((m.r + 1, m.c + 2), 777.0);
+            for i in 0..m.r {
+                for j in 0..m.c {
+                    big[[i + 1, j + 1]] = m.at(i, j);
+                }
+            }
+            Some(big.slice_move(s![1.., 1..m.c + 1]))
+        } else {
+            let mut x = Array2::<f64>::zeros((m.r, m.c));
+            for i in 0..m.r {
+                for j in 0..m.c {
+                    x[[m.r - 1 - i, j]] = m.at(i, j);
+                }
+            }
+            x.invert_axis(Axis(0));
+            Some(x)
+        }
+    }
+    fn vexotic(v: &[f64]) -> Option<ndarray::Array1<f64>> {
+        let mut x = ndarray::Array1::<f64>::from_vec(v.iter().rev().cloned().collect());
+        x.invert_axis(ndarray::Axis(0));
+        Some(x)
+    }
+}
 impl Bk for nalgebra::DMatrix<f64> {}
 
 pub const NAMES: [&str; 3] = ["dense", "ndarray", "nalgebra"];
-pub const LAYOUTS: [&str; 2] = ["built element by element", "transpose() of the transpose-shaped twin"];
+pub const LAYOUTS: [&str; 4] = ["built element by element", "transpose() of the transpose-shaped twin", "backend-native: cut out of a larger table (ndarray slice_move)", "backend-native: reversed rows with an inverted axis (ndarray)"];
 
 /// Logical content of a backend matrix, read through `shape` + `get` only.
 pub fn view<B: BaseMatrix<f64>>(x: &B) -> M {
@@ -36,6 +76,10 @@ fn vv<V: BaseVector<f64>>(v: &V) -> Val {
 /// Build the backend matrix holding `m`. Layout 0: `zeros` + `set`; layout 1: the transposed twin is
 /// built that way and `transpose()`d, which leaves ndarray arrays in column-major memory order.
 pub fn build<B: Bk>(m: &M, layout: usize) -> B {
+    if layout >= 2 {
+        // backend-native unusual memory; backends without one use the plain construction
+        return B::exotic(m, layout - 2).unwrap_or_else(|| build::<B>(m, 0));
+    }
     if layout == 0 {
         let mut x = B::zeros(m.r, m.c);
         for i in 0..m.r {
@@ -61,7 +105,9 @@ pub fn vbuild<B: Bk>(m: &M, source: usize) -> B::RowVector {
     match source {
         0 => B::RowVector::from_array(&m.v),
         1 => build::<B>(m, 1).get_row(0),
-        _ => build::<B>(&m.tr(), 0).to_row_vector(),
+        2 => build::<B>(&m.tr(), 0).to_row_vector(),
+        // backend-native: stored in reverse with the axis inverted (ndarray); others: from_array
+        _ => B::vexotic(&m.v).unwrap_or_else(|| B::RowVector::from_array(&m.v)),
     }
 }
 
